@@ -27,7 +27,12 @@ HUGE_PRECS = [60, 400, 1100, 65535, 65536, 70000]
 
 
 def rand_flags(rng):
-    return "".join(f for f in "#0- +" if rng.random() < 0.25)
+    """A random subset of the flags, in a random order, now and then with a flag repeated (printf accepts both)."""
+    fl = [f for f in "#0- +" if rng.random() < 0.25]
+    rng.shuffle(fl)
+    if fl and rng.random() < 0.15:
+        fl.insert(rng.randrange(len(fl) + 1), rng.choice(fl))
+    return "".join(fl)
 
 
 def all_flag_subsets():
@@ -229,7 +234,16 @@ def flags_shard(args):
     ev = Ev(agg)
     try:
         for conv in convs:
-            for flags in all_flag_subsets():
+            subsets = all_flag_subsets()
+            # every subset in its canonical order, reversed, and in one more random order
+            extra = []
+            for fl in subsets:
+                if len(fl) > 1:
+                    extra.append(fl[::-1])
+                    t = list(fl)
+                    rng.shuffle(t)
+                    extra.append("".join(t))
+            for flags in subsets + extra:
                 for width in (None, 0, 1, 6, 9):
                     for prec in (None, 0, 2, 7):
                         if conv == "c" and prec is not None:
@@ -244,7 +258,8 @@ def flags_shard(args):
                             values = ["", "ab", "\u20ac\u20ac\u20ac"]
                         for value in values:
                             one_directive(rng, agg, ev, flags, width, prec, conv, value, "format")
-                            agg.add("flag_subsets", flags)
+                            agg.add("flag_subsets", "".join(sorted(flags)))
+                            agg.add("flag_orders", flags)
     finally:
         ev.close()
     return agg
@@ -352,7 +367,7 @@ def run(tier, seed):
     for a in common.pmap(errors_shard, [(seed, 0)]):
         total.merge(a)
     rule = ("directive x random flag subset x width (0..70, 300, 70000, *) x precision (0..20, 60..70000, .*) x value, "
-            "through std.format / % / scalar / (key) / * forms; exhaustive over all 32 flag subsets x 14 conversions x "
+            "through std.format / % / scalar / (key) / * forms; exhaustive over all 32 flag subsets (each in canonical, reversed and one random order; random cases also repeat flags) x 14 conversions x "
             "small widths/precisions; oracle = Python % digit for digit on the shared subset (d i u o x X e E f F c s, "
             "|v| < 2^53 for integer conversions, -0.0 normalised, #o and %.Ns excluded), value/shape invariants for "
             "g G and larger magnitudes; len(field) >= width always; malformed formats and count/type/key mismatches "
